@@ -16,6 +16,7 @@ import (
 	_ "verifharness/internal/c13"
 	_ "verifharness/internal/c14"
 	_ "verifharness/internal/c15"
+	_ "verifharness/internal/c16"
 	_ "verifharness/internal/c17"
 	_ "verifharness/internal/c20"
 )
